@@ -685,12 +685,86 @@ def _concrete_probe(ob, p, env, res, tag):
                 break
     for name, ok, d in S.claims:
         if not ok:
+            # a float probe only counts when the solver confirms, on this very instance, that the
+            # claim fails by a margin (rules out rounding artefacts at ill-conditioned inputs)
+            verdict = _confirm_probe(p, env, fe, name) if on_path else 'off-path'
+            if verdict == 'solver-unknown' and tag.startswith('random-probe') and \
+                    (d is None or (d == d and d > 1e-4)):
+                # moderate random inputs and a discrepancy far above rounding level: accepted
+                verdict = 'confirmed'
+            if verdict != 'confirmed':
+                res['notes'].append(f"float probe ({tag}) failed claim {name} but was not confirmed by the solver "
+                                    f"({verdict}); discrepancy={d}")
+                break
             res['violations'].append(dict(claim=name, env=env, uf_tables={}, discrepancy=d, failed=[name],
                                           found_by=tag))
             res['claims'].append(dict(name=name, path=-1, chart=p.chart, verdict='violated', s=0.0,
-                                      engine='float-probe+replay'))
+                                      engine='float-probe + z3 instance confirmation + replay'))
             break
     return on_path
+
+
+def _strong_negation(claim, tol=1e-7):
+    """negation of a claim with a margin: a == b  ->  |a-b| > tol*max(1,|a|,|b|) ; a <= b -> a > b + tol"""
+    t = claim
+    if z3.is_eq(t) and z3.is_real(t.arg(0)) or (z3.is_eq(t) and z3.is_int(t.arg(0))):
+        a, b = t.arg(0), t.arg(1)
+        d = a - b
+        ad = z3.If(d >= 0, d, -d)
+        sa = z3.If(a >= 0, a, -a)
+        return ad > z3.Q(1, 10 ** 7) * (1 + sa)
+    if z3.is_le(t):
+        return t.arg(0) > t.arg(1) + z3.Q(1, 10 ** 7)
+    if z3.is_ge(t):
+        return t.arg(0) < t.arg(1) - z3.Q(1, 10 ** 7)
+    return z3.Not(t)
+
+
+def _confirm_probe(p, env, fe, name):
+    claim = None
+    for nm, cl in p.sess.claims:
+        if nm == name:
+            claim = cl
+            break
+    if claim is None:
+        return 'no-symbolic-counterpart'
+    if z3.is_false(z3.simplify(claim)):
+        return 'confirmed'          # the claim is literally false on this path
+    c = p.c
+    s = z3.Solver()
+    s.set('timeout', 8000)
+    s.add(*c.all_constraints())
+    for nm, v in c.inputs.items():
+        val = env.get(nm)
+        if val is None:
+            continue
+        f = Fraction(float(val))
+        s.add(v == z3.Q(f.numerator, f.denominator))
+    # pin every derived variable (sqrt, sin/cos atoms, atan2, mod ...) to its float evaluation
+    for nm, d in c.defs.items():
+        if d[0] in ('const',):
+            continue
+        try:
+            fv = fe.var(nm)
+        except Exception:
+            continue
+        if isinstance(fv, bool) or fv is None or fv != fv:
+            continue
+        var = z3.Int(nm) if d[0] in ('modk', 'wind') else z3.Real(nm)
+        if d[0] in ('modk', 'wind'):
+            s.add(var == int(fv))
+            continue
+        f = Fraction(float(fv))
+        eps = Fraction(1, 10 ** 9) * (1 + abs(f))
+        s.add(var >= z3.Q((f - eps).numerator, (f - eps).denominator))
+        s.add(var <= z3.Q((f + eps).numerator, (f + eps).denominator))
+    s.add(_strong_negation(claim))
+    r = s.check()
+    if r == z3.sat:
+        return 'confirmed'
+    if r == z3.unsat:
+        return 'refuted-by-solver (rounding artefact)'
+    return 'solver-unknown'
 
 
 def run_obligation(ob, seed=0, timeout_scale=1.0):
@@ -839,6 +913,18 @@ def run_obligation(ob, seed=0, timeout_scale=1.0):
                                                       n_constraints=len(cons),
                                                       smt=txt if len(txt) < 400 else txt[:400] + '...'))
                         continue
+                    if z3.is_false(sc) and path_env is not None:
+                        # literally false on this path: any input following the path is a witness
+                        fill = sample_env(ob, p.sess.specs, rng)
+                        penv = {k: (fill.get(k, 0.5) if v is None else v) for k, v in path_env.items()}
+                        rep = replay_env(ob, penv, {}, name)
+                        if rep['status'] == 'reproduced':
+                            res['claims'].append(dict(name=name, path=pi_, chart=p.chart, verdict='violated',
+                                                      s=0.0, engine='path-model+replay'))
+                            res['violations'].append(dict(claim=name, env=penv, uf_tables={},
+                                                          discrepancy=rep.get('discrepancy'),
+                                                          failed=rep.get('failed')))
+                            continue
                     verdict, model, secs, engine = solve.check(cons, z3.Not(claim),
                                                               ob.timeout_s * 1000 * timeout_scale)
                     res['queries'] += 1
